@@ -35,7 +35,7 @@ pub enum CfgCase {
     Cli { key: u8, cli: u8, inline: u8, doc: u8, cram: bool },
     /// C16 at the command line, one environment variable across two test cases of a Markdown document: FOO in the document
     /// defaults (0 unset, 1 = doc), inline on the second test case (0 unset, 1 = inline) and what the first test case does
-    /// to it (0 nothing, 1 inline FOO=first, 2 `export FOO=shell`, 3 `unset FOO`); the second test case prints FOO
+    /// to it (0 nothing, 1 inline FOO=first, 2 `export FOO=shell`, 3 `unset FOO`, 4 `declare -i FOO`); the second test case prints FOO
     EnvAcross { doc: u8, inline2: u8, first: u8 },
     /// C17: a test-case configuration given as value index per key (0 = unset) in the extended alphabets
     RoundTrip { values: [usize; 8], env_b: usize },
@@ -282,7 +282,7 @@ impl Engine for VcConfig {
         }
         for doc in 0..2u8 {
             for inline2 in 0..2u8 {
-                for first in 0..4u8 {
+                for first in 0..5u8 {
                     if doc + inline2 > 0 {
                         v.push(CfgCase::EnvAcross { doc, inline2, first });
                     }
@@ -562,6 +562,7 @@ impl Engine for VcConfig {
                     1 => (" {environment: {FOO: first}}", "true"),
                     2 => ("", "export FOO=shell"),
                     3 => ("", "unset FOO"),
+                    4 => ("", "declare -i FOO"),
                     _ => ("", "true"),
                 };
                 let want = if *inline2 > 0 { "in{state_directory}line" } else { "doc" };
@@ -576,9 +577,9 @@ impl Engine for VcConfig {
                     other => res.findings.push(Finding::new(
                         "C16",
                         "environment-variable-of-the-highest-layer-in-effect",
-                        format!("second test case sees FOO={want} (document defaults: {}, inline on the second test case: {}, the first test case: {}): [success, success]", if *doc > 0 { "FOO=doc" } else { "unset" }, if *inline2 > 0 { "FOO=inline" } else { "unset" }, ["does nothing", "has inline FOO=first", "runs `export FOO=shell`", "runs `unset FOO`"][*first as usize]),
+                        format!("second test case sees FOO={want} (document defaults: {}, inline on the second test case: {}, the first test case: {}): [success, success]", if *doc > 0 { "FOO=doc" } else { "unset" }, if *inline2 > 0 { "FOO=inline" } else { "unset" }, ["does nothing", "has inline FOO=first", "runs `export FOO=shell`", "runs `unset FOO`", "runs `declare -i FOO`"][*first as usize]),
                         format!("{other:?}; exit status {:?}", run.status),
-                    )),
+                    ).tag(if *first == 4 { "attribute-left-on-a-configured-variable" } else { "plain-variable" })),
                 }
             }
             CfgCase::Cli { key: k, cli, inline, doc, cram } => {
